@@ -43,6 +43,8 @@ class CmdRec(object):
         self.submit_exc = None
         self.outcome = None          # audit.Outcome
         self.lines = []              # per-line callback arguments
+        self.deferred = None         # the Deferred the API returned
+        self.cancelled = False       # the harness called .cancel() on it (caller-side timeout)
         self.fired_chunk = None      # index of the delivery chunk during which it fired
         self.fired_stage = None      # 'submit' | 'deliver' | 'loss' | ...
         self.line_chunks = []
@@ -199,6 +201,10 @@ class Session(object):
             rec.submit_exc = e
             self.exceptions.append(("submit", self.chunk_no, repr(e)))
             return
+        rec.deferred = d
+        if spec.get("late_watch"):
+            # the caller keeps the Deferred and only looks at it later: nothing is attached now
+            return
         rec.outcome = self.aud.watch(d, "cmd%d" % rec.idx)
         d.addBoth(lambda _, rec=rec: self._fired(rec))
 
@@ -297,6 +303,12 @@ class Session(object):
         except Exception as e:
             self.exceptions.append(("loss", self.chunk_no, repr(e)))
         self.stage = "postloss"
+
+    def watch_late(self):
+        """attach the auditor to the Deferreds nobody has looked at so far"""
+        for r in self.commands:
+            if r.outcome is None and r.deferred is not None:
+                r.outcome = self.aud.watch(r.deferred, "cmd%d(late)" % r.idx)
 
     def finish(self):
         self.log.stop()
